@@ -1136,8 +1136,11 @@ def hook_facts(facts):
         md5 = sorted(hashes) == sorted(["hashlib.md5(typechecker.encode('utf-8')).hexdigest()", "'0'"])
         gh_ok = gh is not None and [ast.unparse(r.value) for r in ast.walk(gh) if isinstance(r, ast.Return)] == ["self.hash"]
         ld2 = find_def(tree, "_JaxtypingLoader")
+        hash_locals = {n.targets[0].id for n in ast.walk(ld2) if isinstance(n, ast.Assign) and len(n.targets) == 1 and isinstance(n.targets[0], ast.Name)
+                       and ast.unparse(n.value) == "self._typechecker.get_hash()"} if ld2 is not None else set()
         names_file = ld2 is not None and any(isinstance(c, ast.Call) and call_name(c) == "partial" and len(c.args) == 2
-                                              and ast.unparse(c.args[0]) == "_optimized_cache_from_source" and ast.unparse(c.args[1]) == "self._typechecker.get_hash()"
+                                              and ast.unparse(c.args[0]) == "_optimized_cache_from_source"
+                                              and (ast.unparse(c.args[1]) == "self._typechecker.get_hash()" or (isinstance(c.args[1], ast.Name) and c.args[1].id in hash_locals))
                                               for c in ast.walk(ld2))
         # the table keeps what it is given for the life of the process: a plain dict display on the class (strong
         # references), and nothing in the file removes entries — definitions nested in functions look their decorator up
